@@ -180,14 +180,24 @@ def build_attribute(a):
             attribute_name=cobjects.Attribute.AttributeName(name),
             attribute_index=None if idx is None or idx == -1 else cobjects.Attribute.AttributeIndex(idx),
             attribute_value=primitives.TextString(a["v"], enums.Tags.ATTRIBUTE_VALUE))
-    return AF.create_attribute(at, attr_value_obj(name, a["v"]), None if idx in (None, -1) else idx)
+    try:
+        return AF.create_attribute(at, attr_value_obj(name, a["v"]), None if idx in (None, -1) else idx)
+    except (NotImplementedError, TypeError, ValueError, AttributeError):
+        # attributes the library has no value class for: send a text value
+        return cobjects.Attribute(
+            attribute_name=cobjects.Attribute.AttributeName(name),
+            attribute_index=None if idx in (None, -1) else cobjects.Attribute.AttributeIndex(idx),
+            attribute_value=primitives.TextString(str(a["v"]), enums.Tags.ATTRIBUTE_VALUE))
 
 
 def build_attr_value_2(a):
     """abstract {name, v} -> bare attribute value object carrying its own tag (KMIP 2.0 form)."""
     name = a["name"]
     tag = enums.convert_attribute_name_to_tag(name)
-    return VF.create_attribute_value_by_enum(tag, attr_value_obj(name, a["v"]))
+    try:
+        return VF.create_attribute_value_by_enum(tag, attr_value_obj(name, a["v"]))
+    except (NotImplementedError, TypeError, ValueError, AttributeError):
+        return primitives.TextString(str(a["v"]), tag)
 
 
 def template(attrs, tag=enums.Tags.TEMPLATE_ATTRIBUTE):
@@ -773,8 +783,12 @@ def read_state(path, intern):
                 " app_specific_info_map m on m.app_specific_info_id=a.id where m.managed_object_id=? order by a.id",
                 (uid,))]
             objs.append(o)
-        r = cur.execute("select seq from sqlite_sequence where name='managed_objects'").fetchone()
-        seq = r[0] if r else 0
+        try:
+            r = cur.execute("select seq from sqlite_sequence where name='managed_objects'").fetchone()
+            seq = r[0] if r else 0
+        except sqlite3.OperationalError:
+            # no AUTOINCREMENT bookkeeping: SQLite then allocates largest live rowid + 1
+            seq = max([o["uid"] for o in objs] + [0])
         return {"objs": objs, "seq": seq, "broken": broken}
     finally:
         con.close()
